@@ -199,7 +199,13 @@ class Scheduler(object):
       choice = self.plan.get(k)
       if choice is None and self.rnd is not None and self.rnd.random() < self.rnd_p:
         choice = self.rnd.randrange(1 << 16)
-      if choice is not None:
+      if isinstance(choice, (list, tuple)):
+        # ('stall', seconds): the OS deschedules this thread for a while - virtual time may pass between two lines
+        ts.in_sched = False
+        self.effective_preemptions.append((k, ts.idx, 'stall', tag))
+        self.block(ts, self.now + float(choice[1]), ('stalled', choice[1]))
+        ts.in_sched = True
+      elif choice is not None:
         others = [t for t in self._runnable() if t is not ts]
         if others:
           nxt = others[choice % len(others)]
